@@ -113,23 +113,30 @@ def rule_parent(u, rec, o):
     return True
 
 
+def _host(h):
+    """Host names are compared case-insensitively and without the root dot: "B.Test",
+    "b.test" and "b.test." name one host (RFC 1034 section 3.1, RFC 3986 section 6.2.2.1)."""
+    return (h or '').rstrip('.').lower()
+
+
 def rule_domains(u, rec, o):
     acc, rej = o.get('domains'), o.get('exclude_domains')
     if not acc and not rej:
         return True
-    h = u.host
-    if acc and not (h and any(h.endswith(d) for d in acc)):
+    h = _host(u.host)
+    if acc and not (h and any(h.endswith(_host(d)) for d in acc)):
         return False
-    if rej and h and any(h.endswith(d) for d in rej):
+    if rej and h and any(h.endswith(_host(d)) for d in rej):
         return False
     return True
 
 
 def rule_hostnames(u, rec, o):
     acc, rej = o.get('hostnames'), o.get('exclude_hostnames')
-    if acc and u.host not in acc:
+    h = _host(u.host)
+    if acc and h not in [_host(x) for x in acc]:
         return False
-    if rej and u.host in rej:
+    if rej and h in [_host(x) for x in rej]:
         return False
     return True
 
